@@ -11,6 +11,7 @@ pub mod c10;
 pub mod parse;
 pub mod c04;
 pub mod c12;
+pub mod c14;
 
 pub fn dispatch(ctx: &mut Ctx) {
     match ctx.prop.as_str() {
@@ -21,6 +22,7 @@ pub fn dispatch(ctx: &mut Ctx) {
         "PARSE" => parse::check(ctx),
         "C04" => c04::check(ctx),
         "C12" => c12::check(ctx),
+        "C14" => c14::check(ctx),
         "C16" => c16::check(ctx),
         "C19" => c19::check(ctx),
         other => {
